@@ -682,6 +682,17 @@ theorem kf_bin_integer_centres :
     bin ⟨[500, 520], [1001, 1041]⟩ true true 0 0 none [503, 506, 509, 512] (intC := true) ≠ .ok [3021, 3039, 3057, 3075] := by
   constructor <;> decide +kernel
 
+/-- KNOWN FINDING witness (KF-C15-bin-raw-sum-zero-nonzero-integral): the trapezoid rule samples the spectrum only at the bin
+edges; for the values 1, 0, 1, 0, 1 on 0..4 and centres 0, 2, 4 the edges −1, 1, 3, 5 fall on zeros of the spectrum or outside
+the data: the un-normalised bins are [0, 0, 0], so (guarded rescaling, `bin_preserve_power_sum`: raw sum = 0 → bins = raw) the
+power-preserving bins are [0, 0, 0] too — although the spectrum's integral over the span of the centres is 2. No rescaling can
+preserve the power here. -/
+theorem kf_bin_raw_sum_zero_nonzero_integral :
+    binRaw ⟨[0, 1, 2, 3, 4], [1, 0, 1, 0, 1]⟩ false true 0 0 [0, 2, 4] = .ok [0, 0, 0] ∧
+    bin ⟨[0, 1, 2, 3, 4], [1, 0, 1, 0, 1]⟩ false true 0 0 (some none) [0, 2, 4] = .ok [0, 0, 0] ∧
+    integrate ⟨[0, 1, 2, 3, 4], [1, 0, 1, 0, 1]⟩ 0 4 = 2 := by
+  refine ⟨?_, ?_, ?_⟩ <;> decide +kernel
+
 /-- non-vacuity: a history with an accepted crop, a refused append and an accepted pad -/
 example : run ⟨[1, 2, 4, 8], [5, 6, 7, 8]⟩ [.crop 2 5, .append ⟨[3, 9], [1, 1]⟩, .pad 1 6 none false 0 0]
     = ⟨[1, 2, 4, 6], [0, 6, 7, 0]⟩ := by decide +kernel
